@@ -1,3 +1,4 @@
+import DSV.FactsOK.SrcC03
 import DSV.Generated.Facts
 /-! C03 — the reportability test and the configuration validation as extracted from the working tree. -/
 namespace DSV.Props.C03.Facts
